@@ -365,12 +365,16 @@ pub fn gen_session(seed: u64, index: u64, c: &Corpus) -> Session {
     // swarm: sizes and mixes are redrawn per session
     // 1 session in 12 is *hot*: thousands of requests on one to three derives (counters, caches, thresholds);
     // 1 in 8 uses *big* family items (4x the variants / fields / type parameters)
-    let hot = r.chance(1, 12);
-    let big = r.chance(1, 8);
+    // (hot sessions are placed by index, and their *focus family* cycles, so that every quick batch of 96
+    // sessions hammers each hash-ordered family at least once)
+    let hot = index % 12 == 5;
+    let focus = ((index / 12) as usize) % workload::N_FAMILIES;
+    let big = !hot && r.chance(1, 8);
     workload::SCALE.with(|s| s.set(if big { 4 } else { 1 }));
     let len = if hot { *r.pick(&[1500usize, 3000, 5000]) } else { *r.pick(&[8usize, 12, 20, 20, 30, 40, 60, 60, 100, 160, 250, 400, 20, 40, 60, 1200]) };
     let workers = *r.pick(&[1usize, 1, 2, 2, 3, 4]);
-    let n_family = r.range(1, 6);
+    // a hot session carries hundreds of *distinct* generated items of its focus family
+    let n_family = if hot { r.range(150, 400) } else { r.range(1, 6) };
     let n_base = r.range(3, 40);
     let fault_rate = *r.pick(&[0usize, 5, 10, 20]); // percent of requests that are fault requests
     let kill_rate = *r.pick(&[0usize, 0, 25, 50]); // percent of fault requests served without catch_unwind
@@ -383,6 +387,9 @@ pub fn gen_session(seed: u64, index: u64, c: &Corpus) -> Session {
         if !family_on[which] {
             which = family_on.iter().position(|x| *x).unwrap_or(which);
         }
+        if hot && r.chance(9, 10) {
+            which = focus;
+        }
         let k = workload::family(&mut r, which);
         probes.push(keys.len());
         keys.push(k);
@@ -394,9 +401,13 @@ pub fn gen_session(seed: u64, index: u64, c: &Corpus) -> Session {
     }
     let mut derive_names: Vec<&str> = by_derive.keys().copied().collect();
     let n_base = if hot {
-        // keep only a few derives, but many distinct items of them (twins below add more)
+        // keep only the derives of the focus family (plus one other), but many distinct items of them
+        // (twins below add more)
+        let fam: &[&str] = workload::FAMILY_DERIVES[focus];
         r.shuffle(&mut derive_names);
-        derive_names.truncate(r.range(1, 3));
+        let extra = derive_names.first().copied();
+        derive_names.retain(|d| fam.contains(d));
+        derive_names.extend(extra);
         r.range(40, 120)
     } else {
         n_base
@@ -809,10 +820,13 @@ pub fn minimise(ctx: &Ctx, refs: &RefCache, d: &Divergence, s: &Session, seed: u
             // 2. delta-debug the prefix (probe stays last)
             let mut prefix: Vec<Request> = sched.requests[..sched.requests.len() - 1].to_vec();
             let mut chunk = (prefix.len() / 2).max(1);
-            while chunk >= 1 && !prefix.is_empty() {
+            // bounded: every attempt is a fresh process serving up to the whole prefix
+            let mut attempts = 0usize;
+            while chunk >= 1 && !prefix.is_empty() && attempts < 160 {
                 let mut i = 0;
                 let mut progressed = false;
-                while i < prefix.len() {
+                while i < prefix.len() && attempts < 160 {
+                    attempts += 1;
                     let mut cand = prefix.clone();
                     let end = (i + chunk).min(cand.len());
                     cand.drain(i..end);
